@@ -260,13 +260,19 @@ func (g *pgen) stmt(indent, d int) {
 		g.ro = g.ro[:len(g.ro)-1]
 		g.line(indent, "}")
 	case k == 11 && d > 0:
-		cond := pick(g.r, g.numExpr(1), "")
+		// case labels first, so that the switch value can be one of them (a taken case, often the last one)
+		ncases := 1 + g.r.Intn(3)
+		labels := make([]string, ncases)
+		for c := range labels {
+			labels[c] = pick(g.r, g.intLit(), g.intLit(), g.numExpr(1))
+		}
+		cond := pick(g.r, g.numExpr(1), "", labels[g.r.Intn(ncases)], labels[ncases-1])
 		g.line(indent, "switch "+cond+" {")
-		for c := 0; c < 1+g.r.Intn(3); c++ {
-			g.line(indent, "case "+pick(g.r, g.intLit(), g.numExpr(1))+":")
+		for c := 0; c < ncases; c++ {
+			g.line(indent, "case "+labels[c]+":")
 			g.stmts(indent+1, 1, d-1)
 			if g.r.Intn(3) == 0 {
-				g.line(indent+1, pick(g.r, "fallthrough;", "break;"))
+				g.line(indent+1, pick(g.r, "fallthrough;", "fallthrough;", "break;"))
 			}
 		}
 		if g.r.Intn(2) == 0 {
@@ -423,6 +429,9 @@ func evalGen(r *rand.Rand, tier string, n int) []*wire.Case {
 		"for let i = 0; i < 3; i = i + 1 { print(i); }", "let n = 0; for { n = n + 1; if n > 2 { break; } } print(n);", "let k = 3; for k > 0 { k = k - 1; } print(k);",
 		"fn f() { let i = 0; while 1 { i = i + 1; if i == 3 { return i; } } return 0 - 1; } print(f());",
 		"fn f() { for let i = 0; i < 10; i = i + 1 { if i == 4 { return i * 2; } } return 0; } print(f());")
+	add("d-switch-last-fallthrough", "switch 2 { case 1: print(1); case 2: print(2); fallthrough; default: print(9); }",
+		"switch 1 { case 1: print(1); fallthrough; case 2: print(2); fallthrough; default: print(9); } print(0);",
+		"switch { case 0: print(1); case 1.5: print(2); fallthrough; default: print(9); }", "switch 3 { case 3: print(3); fallthrough; }")
 	add("d-switch", "switch 2 { case 1: print(1); case 2: print(2); fallthrough; case 3: print(3); default: print(9); }", "switch 5 { case 1: print(1); default: print(9); }",
 		"switch { case 0: print(0); case 2 > 1: print(1); break; case 1: print(2); }", "switch 1 { case 1: print(1); fallthrough; }", "let r = 0; fn f(x) { switch x { case 1: return 10; case 2: r = 5; } return r; } print(f(1)); print(f(2)); print(f(3));")
 	add("d-maps", "let m = [3, 1, 2]; print(len(m)); print(first(m)); let s = sort(m, fn(a, b) { return a < b; }); print(first(s)); print(first(m));",
